@@ -74,3 +74,15 @@ Theorem C01_inbound_buffer_link :
      Loop.ztake n (L ++ B)%list = (Loop.ztake n L ++ Loop.ztake (n - Loop.zlen (Loop.ztake n L)) B)%list).
 Proof. exact inbound_buffer_link. Qed.
 Print Assumptions C01_inbound_buffer_link.
+
+From GV Require Proofs.LoopDataExamples.
+(* Non-vacuity: a concrete input (back-pressure, leftover, partial consumption, a datagram) has a history,
+   the checker accepts it, and it is not trivially true (dropping one delivery marker makes it reject). *)
+Example C01_nonvacuous :
+  (exists t, run_history LoopDataExamples.ex_input = Some t /\ List.length t = 72%nat) /\
+  inbound_ok LoopDataExamples.ex_history = true /\
+  inbound_ok (LoopDataExamples.drop_first (LoopDataExamples.is_out "g" "del") LoopDataExamples.ex_history) = false.
+Proof.
+  split; [exact LoopDataExamples.ex_runs|]. split; [exact (proj1 LoopDataExamples.ex_checkers)|exact LoopDataExamples.ex_inbound_rejects].
+Qed.
+Print Assumptions C01_nonvacuous.
